@@ -560,7 +560,7 @@ theorem sources_recovered (t : List KMount) (wf : ∀ m ∈ t, m.WF) :
     by_cases hov : km.fstype = b!"overlay"
     · have ho := hf.2.2.2.2.2.2.1 hov
       by_cases hl : (lastVal b!"lowerdir" km.super).length > 0
-      · simp [ho.1, hl, hov]
+      · simp [ho.1, hl, hov, hf.2.2.2.2.1, hf.1, hfind]
       · simp [ho.1, hl, hf.2.2.2.2.1, hf.1, hfind]
     · have ho := hf.2.2.2.2.2.2.2 hov
       simp [ho.1, hov, hf.2.2.2.2.1, hf.1, hfind]
@@ -575,6 +575,14 @@ def exBind : KMount :=
 
 example : expectedSources [exDisk, exBind] exBind = [b!"/my base/pkg dir"] ∧
     expectedSources [exDisk, exBind] exDisk = [b!"/dev/sda1"] := by
+  decide
+
+/-- (fix 23c682d) the same behind a subvolume: the device is mounted with root `/sub` on
+    "/my base" and never with root `/`; the bind mount of `/sub/pkg dir` is found through it -/
+def exSubvol : KMount := { exDisk with root := b!"/sub" }
+def exBindSub : KMount := { exBind with root := b!"/sub/pkg dir" }
+example : expectedSources [exSubvol, exBindSub] exBindSub = [b!"/my base/pkg dir"] ∧
+    expectedSources [exSubvol, exBindSub] exSubvol = [] := by
   decide
 
 example : exDisk.WF ∧ exBind.WF := by
